@@ -345,3 +345,48 @@ impl io::Seek for FaultyIo {
         Ok(self.pos as u64)
     }
 }
+
+// ---------------------------------------------------------------------------------------------
+// Call budget around a library backend
+// ---------------------------------------------------------------------------------------------
+
+/// Delegates to a library word reader and counts the calls: a reader that runs away over the
+/// zero extension (which never reports an error) becomes a budget panic - a logical-step
+/// verdict - instead of a process that spins until the wall-clock watchdog.
+#[derive(Debug, Clone)]
+pub struct Budgeted<B> {
+    pub inner: B,
+    calls: u64,
+    budget: u64,
+}
+
+impl<B> Budgeted<B> {
+    pub fn new(inner: B, budget: u64) -> Self {
+        Self { inner, calls: 0, budget }
+    }
+    fn tick(&mut self) {
+        self.calls += 1;
+        if self.calls > self.budget {
+            panic!("{}", BUDGET_MSG);
+        }
+    }
+}
+
+impl<B: WordRead> WordRead for Budgeted<B> {
+    type Error = B::Error;
+    type Word = B::Word;
+    fn read_word(&mut self) -> Result<Self::Word, Self::Error> {
+        self.tick();
+        self.inner.read_word()
+    }
+}
+
+impl<B: WordSeek> WordSeek for Budgeted<B> {
+    type Error = B::Error;
+    fn word_pos(&mut self) -> Result<u64, Self::Error> {
+        self.inner.word_pos()
+    }
+    fn set_word_pos(&mut self, word_pos: u64) -> Result<(), Self::Error> {
+        self.inner.set_word_pos(word_pos)
+    }
+}
